@@ -213,6 +213,72 @@ def extras_cases(r, kind, reserved):
     return out
 
 
+class QN:
+    """object printed as the call  target(1, k=2)"""
+    def __init__(self, target):
+        self.target = target
+
+
+def qualified_name_cases():
+    """(label, callable, expected printed name, scope for resolving it): callables of the implicit
+    modules (builtins, __main__) with DOTTED qualified names, and of an ordinary module"""
+    import builtins
+    outer = type('Outer', (), {})
+    inner = type('Inner', (), {})
+    deep = type('Deep', (), {})
+    inner.__qualname__, deep.__qualname__ = 'Outer.Inner', 'Outer.Inner.Deep'
+    outer.Inner, inner.Deep = inner, deep
+    for c in (outer, inner, deep):
+        c.__module__ = '__main__'
+    mod_outer = type('ModOuter', (), {})
+    mod_inner = type('ModInner', (), {})
+    mod_inner.__qualname__ = 'ModOuter.ModInner'
+    mod_outer.ModInner = mod_inner
+    mod_outer.__module__ = mod_inner.__module__ = 'c17'
+
+    def plain_fn():
+        pass
+    plain_fn.__module__, plain_fn.__qualname__ = '__main__', 'plain_fn'
+    scope = dict(vars(builtins), Outer=outer, plain_fn=plain_fn, c17=type('M', (), {'ModOuter': mod_outer}))
+    return [('builtin classmethod dict.fromkeys', dict.fromkeys, 'dict.fromkeys', scope),
+            ('builtin classmethod bytes.fromhex', bytes.fromhex, 'bytes.fromhex', scope),
+            ('builtin classmethod int.from_bytes', int.from_bytes, 'int.from_bytes', scope),
+            ('builtin function len', len, 'len', scope),
+            ('builtin type dict', dict, 'dict', scope),
+            ('class nested in a class of __main__', inner, 'Outer.Inner', scope),
+            ('class nested twice in __main__', deep, 'Outer.Inner.Deep', scope),
+            ('top-level class of __main__', outer, 'Outer', scope),
+            ('function of __main__', plain_fn, 'plain_fn', scope),
+            ('class nested in a class of an ordinary module', mod_inner, 'c17.ModOuter.ModInner', scope)]
+
+
+def qualified_name_oracle(label, target, want, scope, cfg):
+    from prettyprinter import register_pretty, pretty_call, is_registered
+    if not is_registered(QN):
+        @register_pretty(QN)
+        def _p(value, ctx):
+            return pretty_call(ctx, value.target, 1, k=2)
+    text, ws = PC.impl_pformat(QN(target), cfg)
+    if text.startswith('EXC') or ws:
+        return 'pformat raised or warned: %s %s' % (text[:80], ws[:1])
+    try:
+        tree = ast.parse('(' + text + '\n)', mode='eval').body
+    except SyntaxError as e:
+        return 'does not parse: %s' % e
+    if not isinstance(tree, ast.Call):
+        return 'not a call: %s' % text[:100]
+    got = ast.unparse(tree.func)
+    if got != want:
+        return '%s: callable printed as %r, its qualified name is %r' % (label, got, want)
+    try:
+        obj = eval(got, dict(scope))
+    except Exception as e:
+        return '%s: the printed name %r does not resolve: %s' % (label, got, e)
+    if obj != target:
+        return '%s: the printed name %r resolves to another object' % (label, got)
+    return None
+
+
 def main(tier):
     install()
     run = Run(PROP, tier)
@@ -236,6 +302,16 @@ def main(tier):
             msg = call_oracle(c)
             if msg and len(run.violations) < 3:
                 run.violation({'kind': 'oracle', 'detail': msg, 'term': PC.jsonable(c.term), 'cfg': c.cfg, 'impl': c.text})
+        # ---- A2: the callable's qualified name (oracle only: names are data for the model)
+        nq = 0
+        for label, target, want, scope in qualified_name_cases():
+            for cfg in (dict(), dict(width=10)):
+                nq += 1
+                run.count(1)
+                msg = qualified_name_oracle(label, target, want, scope, cfg)
+                if msg and len(run.violations) < 6:
+                    run.violation({'kind': 'qualified-name', 'detail': msg, 'label': label, 'cfg': cfg})
+        run.coverage['qualified_name_cases'] = nq
         # ---- B: dataclasses / attrs
         r = rng(PROP + '/extras')
         n = 500 if tier == 'quick' else 8000
@@ -348,6 +424,13 @@ def replay(path):
     install()
     with open(path) as f:
         p = json.load(f)
+    if p.get('kind') == 'qualified-name':
+        for label, target, want, scope in qualified_name_cases():
+            if label == p['label']:
+                msg = qualified_name_oracle(label, target, want, scope, p['cfg'])
+                print('oracle:', msg)
+                return 1 if msg else 0
+        return 1
     if 'term' in p:
         t = PC.unjson(p['term'])
         c = PC.run_cases([('replay', t, p['cfg'])])[0]
